@@ -116,6 +116,11 @@ type SOpV struct {
 	// the service processes what its machines emit as requests of its
 	// own, and none of those may be lost or doubled: the count grows by 11
 	Fan bool `json:"fan,omitempty"`
+	// Lost (add, sequential histories): the machine is added at a node its
+	// specification does not have; the first step of its next walk fails
+	// and the walk takes it to the error node - a transition like any
+	// other: in memory only together with the write
+	Lost bool `json:"lost,omitempty"`
 }
 
 type ServiceCase struct {
@@ -144,6 +149,9 @@ func genSOp(t *rapid.T, label string, faults bool, pool ...string) SOpV {
 	}
 	if op.Kind == "add" {
 		op.Tmp = rapid.IntRange(0, 2).Draw(t, label+".tmp") == 0
+	}
+	if op.Kind == "add" && faults {
+		op.Lost = rapid.IntRange(0, 5).Draw(t, label+".lost") == 2
 	}
 	if op.Kind == "process" {
 		op.Drop = rapid.IntRange(0, 3).Draw(t, label+".drop") == 0
@@ -292,6 +300,9 @@ func doSOp(ctx context.Context, s *Service, op SOpV) (map[string]*core.Walked, e
 	}
 	switch op.Kind {
 	case "add":
+		if op.Lost {
+			return nil, s.AddMachine(ctx, "vcounter", op.Mid, "nowhere", match.Bindings{"kept": "x"})
+		}
 		if op.Per0 {
 			return nil, s.AddMachine(ctx, "vcounter", op.Mid, "", match.Bindings{"per": 0.0})
 		}
@@ -374,7 +385,9 @@ func checkService(c ServiceCase) (v ev.Verdict) {
 			// the service's own: wait for them to end
 			was, have := before[op.Mid]
 			want := verifCountOf(was) + 11
-			judged := have && !down && operr == nil && !goneSeen
+			// (a machine that is not listening at "start" - one added at
+			// a node its specification lacks - does not fan out)
+			judged := have && !down && operr == nil && !goneSeen && strings.HasPrefix(was, "start ")
 			for deadline := time.Now().Add(8 * time.Second); time.Now().Before(deadline); {
 				if judged && verifCountOf(memView(s)[op.Mid]) == want {
 					break
